@@ -596,16 +596,65 @@ fn scn(r: &mut SmallRng, group: &'static str, n: usize, vals: ValKind, cfg: Cfg)
 }
 
 fn main() {
+    default_thread_stacks();
     let mut ctx = Ctx::from_args("C07");
     ctx.set_hang_limit(600);
     let debug = cfg!(debug_assertions);
     let san = ctx.build == "ASAN" || ctx.build == "TSAN";
     let thorough = ctx.thorough();
-    let lim = Lim { max_n: if debug { 200_000 } else if san { 100_000 } else { usize::MAX }, huge_hint: !san };
+    // debug builds are slow, ASan is slower; TSan gets the 4-shard size for the parallel solver
+    let lim = Lim { max_n: if debug || ctx.build == "TSAN" { 200_000 } else if san { 100_000 } else { usize::MAX }, huge_hint: !san };
     let mut r = ctx.rng(7);
     let timing = timing_enabled();
+    // which pairs of option values occur together in the generated configurations (evidence only)
+    let mut pairs: std::collections::HashSet<(u8, u8, u8, u8)> = std::collections::HashSet::new();
+    let mut seen: std::collections::HashSet<(u8, u8)> = std::collections::HashSet::new();
     let mut run = |ctx: &mut Ctx, v: usize, s: Scn| {
         let var = &VARIANTS[v];
+        {
+            let c = &s.cfg;
+            let hint = match c.hint {
+                Hint::Absent => 0,
+                Hint::Exact => 1,
+                Hint::Tenth => 2,
+                Hint::Zero => 3,
+                Hint::Minus1 => 4,
+                Hint::Plus1 => 5,
+                Hint::Double => 6,
+                Hint::Times8 => 7,
+                Hint::Fixed(800_000) => 8,
+                Hint::Fixed(_) => 9,
+            };
+            let knobs: [u8; 10] = [
+                hint,
+                c.threads.map(|t| t as u8).unwrap_or(0),
+                c.offline as u8,
+                c.low_mem.map(|l| 1 + l as u8).unwrap_or(0),
+                match c.seed {
+                    0 => 0,
+                    1 => 1,
+                    42 => 2,
+                    _ => 3,
+                },
+                c.log2_buckets.map(|l| 1 + l as u8).unwrap_or(0),
+                c.eps.map(|e| if e < 0.005 { 1 } else if e < 0.05 { 2 } else { 3 }).unwrap_or(0),
+                var.logic as u8,
+                v as u8,
+                match s.vals {
+                    ValKind::Identity => 0,
+                    ValKind::Zero => 1,
+                    ValKind::AllOnes => 2,
+                    ValKind::Random(_) => 3,
+                    ValKind::SparseMax(..) => 4,
+                },
+            ];
+            for i in 0..knobs.len() {
+                seen.insert((i as u8, knobs[i]));
+                for j in i + 1..knobs.len() {
+                    pairs.insert((i as u8, knobs[i], j as u8, knobs[j]));
+                }
+            }
+        }
         let t0 = cpu_secs();
         let runs = ctx.next_runs();
         ctx.case(var.name, &s.stratum(), "build+get", |c| (var.run)(c, &s));
@@ -793,6 +842,22 @@ fn main() {
         }
     }
 
+    {
+        let mut possible = 0usize;
+        let sv: Vec<(u8, u8)> = seen.iter().copied().collect();
+        for a in sv.iter() {
+            for b in sv.iter() {
+                // (seed class, log2_buckets) x offline are constrained by construction; everything else is free
+                if a.0 < b.0 {
+                    possible += 1;
+                }
+            }
+        }
+        ctx.note(
+            "c07_option_value_pairs_in_the_generated_configurations_of_one_shard_(hint,threads,offline,low_mem,seed,log2_buckets,eps,logic,variant,values)",
+            &format!("\"{} pairs of option values occur together, of {} combinations of values seen individually\"", pairs.len(), possible),
+        );
+    }
     let counters = format!(
         "{{\"builds_ok\":{},\"builds_needing_retries\":{},\"slow_convergence_builds_over_64_attempts\":{},\"abandoned_after_a_no_progress_violation\":{},\"pairs_checked\":{},\"unaligned_pairs_checked\":{}}}",
         BUILDS_OK.with(|c| c.get()),
@@ -803,6 +868,6 @@ fn main() {
         UNALIGNED.with(|c| c.get())
     );
     ctx.note("c07_counters", &counters);
-    ctx.note("c07_max_attempts_of_a_successful_build", &format!("[{}]", MAX_ATTEMPTS.with(|c| c.get())));
+    ctx.note("c07_max_attempts_of_a_successful_build_per_shard", &format!("\"{}\"", MAX_ATTEMPTS.with(|c| c.get())));
     ctx.finish();
 }
